@@ -142,6 +142,35 @@ def h_reduce_angc_wrapper(env, nalpha, stride, offset, a2y, nw=(2, 3), lmax=1):
     env.attempt("wrong_theta_gq_rows_rejected", lambda: ix.reduce_angc_ylm_(th_rlmq.copy(), env.zeros((ng - 1, stride)), a2y=a2y, offset=offset), expect=AssertionError)
 
 
+def h_convert_rad2orb(env, nlm, rad2orb, nalpha=2, stride=3, offset=1):
+    """ATCBasis.convert_rad2orb_ (the real wrapper on a real basis struct with l <= 1 shells, C interpreted with exactly sized,
+    bounds-checked buffers): with enough spherical-harmonic columns (nlm >= (lmax+1)^2 = 4) the accepted call stays inside its arrays;
+    with too few the call must be refused, not passed on to C, which indexes column l*l + m without looking at nlm"""
+    from . import c05, c05_grid
+    W = c05._real_world()
+    lc = env.m.lcao_convolutions
+    atco = c05_grid._twin(lc.ATCBasis, W["atco"]) if env.sym else W["atco"]
+    nao = W["atco"].nao
+    rads = np.ascontiguousarray(np.array([0.3, 0.9, 0.4, 1.1, 1.7]))
+    loc = np.array([0, 2, 5], dtype=np.int32) if rad2orb else np.array([0, 0, 1, 1, 1], dtype=np.int32)
+    th = env.arr("t", (5, nlm, nalpha), lo="-2", hi="2")
+    p = env.arr("p", (nao, stride), lo="-2", hi="2")
+    cast = (lambda a: a.copy()) if env.sym else (lambda a: np.ascontiguousarray(a, dtype=float))
+    a, b = cast(th), cast(p)
+    enough = nlm >= 4
+    name = "accepted_call_returns_without_out_of_bounds_access" if enough else "too_few_spherical_harmonic_columns_rejected"
+    ok, _ = env.attempt(name, lambda: atco.convert_rad2orb_(a, b, loc, rads, rad2orb=rad2orb, offset=offset), expect=None if enough else (AssertionError, ValueError))
+    if not (enough and ok):
+        return
+    for u in range(nao):
+        for c in range(stride):
+            if not (offset <= c < offset + nalpha) or not rad2orb:
+                env.equal("p_outside_window_or_input_untouched_%d_%d" % (u, c), b[u, c], p[u, c])
+    if rad2orb:
+        for idx in np.ndindex(5, nlm, nalpha):
+            env.equal("theta_input_untouched_%s" % "_".join(map(str, idx)), a[idx], th[idx])
+
+
 def h_shape_checks(env, which):
     """Python-level shape guards in front of the numerical kernels (concrete shapes one off in each dimension)"""
     if which == "FeatNormalizerList":
@@ -265,6 +294,9 @@ def tasks(tier):
     sp = [(3, None, "etb", "gq"), (3, 5, "etb", "gq"), (3, 5, "zexp", "qg"), (4, 3, "etb", "qg")]
     if tier == "thorough":
         sp += [(3, 5, "etb", "qg"), (3, 5, "zexp", "gq"), (4, 3, "zexp", "gq"), (3, 7, "etb", "gq"), (5, 3, "etb", "gq")]
+    for nlm in (4, 9, 1):
+        for r2o in (True, False):
+            out.append(Task("buffers/convert_rad2orb_/nlm%d/%s" % (nlm, "rad2orb" if r2o else "orb2rad"), h_convert_rad2orb, dict(nlm=nlm, rad2orb=r2o), mods="kernels"))
     for nalpha, S, formula, order in sp:
         out.append(Task("buffers/NLDFSplinePlan/nalpha%d_spline%s/%s/%s" % (nalpha, S, formula, order), h_spline_plan, dict(nalpha=nalpha, spline_size=S, formula=formula, order=order),
                         mods="dft", max_paths=256))
@@ -298,6 +330,13 @@ def prepare(tier):
     bridge.module(COEFS_C)
     k = sym_mods("kernels")
     k.fn, k.xc_evaluator, k.kernels, k.lcao_convolutions
+    from . import c05, c05_grid
+    W = c05._real_world()
+    bridge.install(common.ctx(), "libmcider", c05.CONV_C, ["contract_rad_to_orb", "contract_orb_to_rad"], hybrid=True, stats=CSTATS)
+    lib = common.ctx().load_library("libmcider")
+    for name in c05_grid.PASSTHROUGH:
+        lib.handlers[name] = (lambda *a, _f=getattr(W["lc"].libcider, name): _f(*a))
+    lib.handlers["free_atc_basis_set"] = lambda *a: None
 
 
 NEEDS_FFT = True
@@ -331,7 +370,7 @@ META = dict(
                 "FeatureSettings.get_feat_loc the running sum, for every combination of families; (2) symbolic execution of NLDFAuxiliaryPlan.__init__ over the whole illegal region of "
                 "each numeric argument and of eval_feat_exp with symbolic densities (a returning call never yields an exponent above max(alphas) at rho > rhocut); (3) the real ctypes "
                 "wrappers (reduce_angc_ylm_, RBFEvaluator family, FFTWrapper) run clang IR of the C in a bounds-checked interpreter with exactly sized buffers; (4) Python shape guards",
-    functions=["ciderpress/dft/settings.py: NLDFSettingsVI/VJ/VIJ/VK, SemilocalSettings, SADMSettings, FracLaplSettings, SDMX*Settings, FeatureSettings (constructors, nfeat, get_feat_usps, ueg_vector, get_reasonable_normalizer, get_feat_loc)",
+    functions=['ciderpress/dft/lcao_convolutions.py: ATCBasis.convert_rad2orb_ + convolutions.c contract_rad_to_orb / contract_orb_to_rad (buffers/convert_rad2orb_/*)', "ciderpress/dft/settings.py: NLDFSettingsVI/VJ/VIJ/VK, SemilocalSettings, SADMSettings, FracLaplSettings, SDMX*Settings, FeatureSettings (constructors, nfeat, get_feat_usps, ueg_vector, get_reasonable_normalizer, get_feat_loc)",
                "ciderpress/dft/plans.py: NLDFAuxiliaryPlan.__init__, eval_feat_exp", "ciderpress/dft/grids_indexer.py: AtomicGridsIndexer.reduce_angc_ylm_ -> cider_grids.c: reduce_angc_to_ylm, reduce_ylm_to_angc (via dgemm_ model)",
                "ciderpress/dft/xc_evaluator.py: RBFEvaluator/SpinRBFEvaluator/KernelEvaluator/ModelWithNormalizer; model_utils.c evaluate_se_kernel*", "ciderpress/lib/fft_plan.py + cider_fft.c (write_fft_input/read_fft_output copies)",
                "ciderpress/dft/feat_normalizer.py: FeatNormalizerList._check_shape", "ciderpress/dft/lcao_convolutions.py: ConvolutionCollection(K).multiply_atc_integrals default output and asserts"],
@@ -341,6 +380,6 @@ META = dict(
                 crosshair="per-condition timeout 90-150 s quick, x3 thorough; a condition counts only when 'Confirmed over all paths' and its reachability twin is refuted"),
     stubs=["interpreted C: double = exact real; dgemm_ reference model; FFTW contract model", "CrossHair: ints reaching numpy are case-split into concrete values first (_enum), so no symbolic value is realised"],
     assumptions=["NotImplementedError from ueg_vector/get_reasonable_normalizer (dot products whose scaling power has no recommended normaliser, unsupported SDMX ratios) is an explicit refusal, not an inconsistency",
-                 "not covered: SDMX plan/initialiser classes of the PySCF layer, convert_rad2orb_/multiply_atc_integrals buffers through the wrappers (their struct set-up is C; window/bounds are covered on the C level in C05), "
+                 "not covered: SDMX plan/initialiser classes of the PySCF layer, multiply_atc_integrals buffers through the wrappers (their struct set-up is C; window/bounds are covered on the C level in C05), "
                  "library-owned struct memory", "out-of-bounds counterexamples are confirmed under valgrind memcheck on the freshly compiled library (confirmation only)"],
 )
